@@ -49,9 +49,10 @@ type (
 		Args []Expr
 	}
 	EQuant struct {
-		Forall bool
-		Vars   []Binder
-		Body   Expr
+		Forall   bool
+		Vars     []Binder
+		Body     Expr
+		Triggers [][]Expr
 	}
 )
 
@@ -191,7 +192,7 @@ func lex(src string) ([]lexTok, error) {
 			if matched {
 				continue
 			}
-			if strings.ContainsRune("+-*/%&|^!<>()[].,:", rune(c)) {
+			if strings.ContainsRune("+-*/%&|^!<>()[].,:{}", rune(c)) {
 				toks = append(toks, lexTok{"op", string(c)})
 				i++
 				continue
@@ -317,8 +318,24 @@ func (p *exprParser) quant() Expr {
 			}
 			p.expect(",")
 		}
+		// optional explicit triggers: {e1, e2} {e3} ... (each group is one multi-pattern)
+		var trigs [][]Expr
+		for p.isOp("{") {
+			p.next()
+			var g []Expr
+			for {
+				g = append(g, p.iff())
+				if p.isOp(",") {
+					p.next()
+					continue
+				}
+				break
+			}
+			p.expect("}")
+			trigs = append(trigs, g)
+		}
 		body := p.quant()
-		return &EQuant{Forall: t.text == "forall", Vars: bs, Body: body}
+		return &EQuant{Forall: t.text == "forall", Vars: bs, Body: body, Triggers: trigs}
 	}
 	return p.iff()
 }
